@@ -386,7 +386,9 @@ def m_prodcons(sc, rng, mi):
         ops = _align(rng, t, "sleepu")
         for _ in range(r):
             if mq:
-                ops.append(("mqput", box) if rng.random() < 0.8 else ("mqputa", len(ops), box))
+                # synchronous puts only: a later wait()/test() of the sender on a delivered put writes the payload pointer into
+                # the receiver's (possibly dead) buffer again (C09:payload-rewritten-after-delivery)
+                ops.append(("mqput", box))
             else:
                 x = rng.random()
                 if x < 0.6:
@@ -396,8 +398,6 @@ def m_prodcons(sc, rng, mi):
                 else:
                     ops += [("puta", 0, box, size), ("wait", 0, rng.choice([-1, 50]))]
             ops.append(("sleep", rng.choice([0, 0, 1])))
-        # a pending asynchronous put dies with its issuer: wait for them
-        ops += [("wait", o[1], -1) for o in ops if o[0] == "mqputa"]
         sc.actor("p%dp%d" % (mi, i), ops)
     total = p * r
     for j in range(c):
